@@ -61,7 +61,30 @@ def pb? (s : String) : Option Bytes :=
     | _ => none
   | _ => Driver.parseBytes? s
 
-def handle : List String → String
+/-- one bit of a ciphertext flipped (`bit` counted from the least significant bit of byte 0, modulo the
+length) — the harness's `c05Damaged` does the same -/
+def flipBit (ct : Bytes) (bit : Nat) : Bytes :=
+  if ct.length = 0 then ct else
+  let b := bit % (8 * ct.length)
+  (ct.take (b / 8)) ++ ((ct.drop (b / 8)).take 1).map (fun x => x ^^^ UInt8.ofNat (2 ^ (b % 8))) ++ ct.drop (b / 8 + 1)
+
+/-- the ciphertext of `c05.tdecbad`: a conformant peer's message damaged (`flip:<bit>`), replaced by random
+bytes of the same length (`rand:<seed>`), or made under other nonces (`keys:<n2>:<s2>`) -/
+def damaged? (how : String) (nb sb pad answer : Bytes) : Option Bytes :=
+  match how.splitOn ":" with
+  | ["flip", b] => b.toNat?.map fun bit => flipBit (conformantMsg H aesE nb sb answer pad) bit
+  | ["rand", sd] =>
+    match sd.toNat? with
+    | some sd => if sd < 18446744073709551616 then some (lcgBytes (20 + answer.length + pad.length) (UInt64.ofNat sd)) else none
+    | none => none
+  | ["keys", n2, s2] =>
+    match pb? n2, pb? s2 with
+    | some n2, some s2 => if n2.length ≠ 32 ∨ s2.length ≠ 16 then none else some (conformantMsg H aesE n2 s2 answer pad)
+    | _, _ => none
+  | _ => none
+
+/-- the ordinary operations (one call each) -/
+def handle1 : List String → String
   | ["c05.enc", key, iv, data] =>
     match pb? key, pb? iv, pb? data with
     | some k, some v, some d =>
@@ -109,10 +132,58 @@ def handle : List String → String
       let ct := conformantMsg H aesE nb sb a p
       s!"ct={showBytes ct} out={showOutcome (decryptTemp H aesD ct (fromBE nb) (fromBE sb))}"
     | _, _, _, _ => "bad-op"
+  | ["c05.tdecbad", n, s, pad, answer, how] =>
+    -- the same message, damaged: valid length, refused where no cut point matches (whatever the model says)
+    match pb? n, pb? s, pb? pad, pb? answer with
+    | some nb, some sb, some p, some a =>
+      if nb.length ≠ 32 ∨ sb.length ≠ 16 ∨ (20 + a.length + p.length) % 16 ≠ 0 then "bad-op" else
+      match damaged? how nb sb p a with
+      | some ct => s!"ct={showBytes ct} out={showOutcome (decryptTemp H aesD ct (fromBE nb) (fromBE sb))}"
+      | none => "bad-op"
+    | _, _, _, _ => "bad-op"
   | ["c05.tdecraw", n, s, ct] =>
     match pb? n, pb? s, pb? ct with
     | some nb, some sb, some c => showOutcome (decryptTemp H aesD c (fromBE nb) (fromBE sb))
     | _, _, _ => "bad-op"
   | _ => "bad-op"
+
+/-- the members of a batch line: the token lists between the `|` tokens (the tokens in front of the first
+`|` are the header) -/
+def splitBars (toks : List String) : List (List String) :=
+  let rec go : List String → List String → List (List String) → List (List String)
+    | [], cur, acc => (cur.reverse :: acc).reverse
+    | t :: ts, cur, acc => if t == "|" then go ts [] (cur.reverse :: acc) else go ts (t :: cur) acc
+  go toks [] []
+
+/-- a member of a batch is an ordinary operation. Inside a batch `c05.tenc` is run only for payloads that need
+no padding (the padding comes from the process-wide random source, which a batch cannot seed per member). -/
+def member (op : List String) : String :=
+  match op with
+  | ["c05.tenc", _, _, _, _, msg] =>
+    match pb? msg with
+    | some m => if (20 + m.length) % 16 ≠ 0 then "bad-op" else handle1 op
+    | none => "bad-op"
+  | _ => handle1 op
+
+/-- `c05.par <rounds> <iters> | member | …` (the members run at the same time in the harness) and
+`c05.seq | member | …` (one after another, nothing in between): every call is a call on its own, so the
+answer is the members' answers; `conc=same` is what the harness prints when no member's concurrent result
+differed from its result alone. -/
+def handle (toks : List String) : String :=
+  match toks with
+  | "c05.par" :: _ =>
+    match splitBars toks with
+    | ["c05.par", r, i] :: m :: ms =>
+      match r.toNat?, i.toNat? with
+      | some r, some i =>
+        if r < 1 ∨ i < 1 ∨ r * i > 1048576 then "bad-op" else
+        " | ".intercalate ((m :: ms).map member) ++ " | conc=same"
+      | _, _ => "bad-op"
+    | _ => "bad-op"
+  | "c05.seq" :: _ =>
+    match splitBars toks with
+    | ["c05.seq"] :: m :: ms => " | ".intercalate ((m :: ms).map member)
+    | _ => "bad-op"
+  | _ => handle1 toks
 
 end Driver.C05
